@@ -153,6 +153,36 @@ CLAIMED = {
             "DESIGN.md §3 C11"),
 }
 
+CLAIMED.update({
+    "C07": ("abstract interpretation of the compiler's emitting functions over typed HIR (height / last-instruction / "
+            "pending-jump state, induction over the AST) against per-opcode stack effects computed from VM::run",
+            "Decides, for every program shape, the stack bookkeeping of the emitted code: each statement arm ends at the "
+            "height it began with, each expression arm adds exactly its class effect and never reaches below the operands "
+            "it is given, every jump lands at an equal height, peephole removals act on the block's own trailing Pop, "
+            "filter and function scopes end as the VM expects; and reports at which operand depth a break/continue jump "
+            "can be emitted. It does not execute programs: no iteration count is involved.",
+            "Relies on the parser contract about assignment targets and properties where the compiler does not test it "
+            "itself (stated as A-access, partly checked); the VM effect table assumes builtin indices issued by the "
+            "compiler; run-time failures inside builtins are out of scope; " + TRUST,
+            "DESIGN.md §3 C07"),
+    "C05": ("emission verifier paths (jump pairing, landing heights, loop positions) + table rules over the match-pattern "
+            "code, matches_type (partial evaluation over all kind pairs), parser default arm, VM jump arms",
+            "Decides the structure of the emitted control flow for if/else, match and loops on every program shape, and "
+            "the pattern-kind → comparison table including the `..`/`..=` bound tests; the type test over all pattern "
+            "pairs. Which branch a concrete value selects (truthiness, comparison results) is left to C06/C09; program "
+            "outputs are not decided.",
+            "Reference tables for pattern code are transcribed from the property statement; " + TRUST,
+            "DESIGN.md §3 C05"),
+    "C02": ("emission verifier paths (operand order, class effects) + table agreement (operator→opcode, opcode→closure, "
+            "literal→constant, VM operand order) + rejection paths + classification of all CompileError sites",
+            "Decides the structural half of compile/evaluate agreement for every program shape: evaluation order of "
+            "operands, arguments and elements; the operator tables on both sides; slot provenance of Define/Get/Set "
+            "operands; stack bookkeeping; that the named faults are rejected before anything is emitted and that no "
+            "unclassified rejection exists. Equality of observed values with a reference evaluator is not decided.",
+            "No reference interpreter is involved; values are the business of C09/C10/C11; " + TRUST,
+            "DESIGN.md §3 C02"),
+})
+
 NOT_APPLICABLE = {
     "C12": "value-level equality with a reference renderer over an unbounded format grammar; no clause is visible in "
            "the shape of format_buf's character state machine (DESIGN.md §4)",
